@@ -88,18 +88,38 @@ impl DumpOpts {
     }
 }
 
+pub fn crash_context_of(pid: i32, c: &CrashSpec) -> minidump_writer::crash_context::CrashContext {
+    let mut cc = make_context(&vals_for(&c.devs));
+    cc.inner.siginfo.ssi_signo = c.signo;
+    cc.inner.siginfo.ssi_code = c.code;
+    cc.inner.siginfo.ssi_addr = c.addr;
+    cc.inner.pid = pid;
+    cc.inner.tid = c.tid;
+    cc
+}
+
+pub fn user_mapping_list_of(ums: &[UserMap]) -> minidump_writer::maps_reader::MappingList {
+    ums.iter()
+        .map(|u| MappingEntry {
+            mapping: MappingInfo {
+                start_address: u.start,
+                size: u.size,
+                system_mapping_info: SystemMappingInfo { start_address: u.start, end_address: u.start.wrapping_add(u.size) },
+                offset: 0,
+                permissions: crate::idle::perms(true, false, true),
+                name: Some(u.name.clone().into()),
+            },
+            identifier: u.id.clone(),
+        })
+        .collect()
+}
+
 pub fn make_writer(pid: i32, o: &DumpOpts) -> MinidumpWriter {
     crate::checks::universal::note_writer(pid, o);
     let blamed = o.blamed.unwrap_or(pid);
     let mut w = MinidumpWriter::new(pid, blamed);
     if let Some(c) = &o.crash {
-        let mut cc = make_context(&vals_for(&c.devs));
-        cc.inner.siginfo.ssi_signo = c.signo;
-        cc.inner.siginfo.ssi_code = c.code;
-        cc.inner.siginfo.ssi_addr = c.addr;
-        cc.inner.pid = pid;
-        cc.inner.tid = c.tid;
-        w.set_crash_context(cc);
+        w.set_crash_context(crash_context_of(pid, c));
     }
     if let Some(l) = o.size_limit {
         w.set_minidump_size_limit(l);
@@ -117,22 +137,7 @@ pub fn make_writer(pid: i32, o: &DumpOpts) -> MinidumpWriter {
         w.set_app_memory(o.app_memory.iter().map(|(p, l)| AppMemory { ptr: *p, length: *l }).collect());
     }
     if !o.user_mappings.is_empty() {
-        w.set_user_mapping_list(
-            o.user_mappings
-                .iter()
-                .map(|u| MappingEntry {
-                    mapping: MappingInfo {
-                        start_address: u.start,
-                        size: u.size,
-                        system_mapping_info: SystemMappingInfo { start_address: u.start, end_address: u.start.wrapping_add(u.size) },
-                        offset: 0,
-                        permissions: crate::idle::perms(true, false, true),
-                        name: Some(u.name.clone().into()),
-                    },
-                    identifier: u.id.clone(),
-                })
-                .collect(),
-        );
+        w.set_user_mapping_list(user_mapping_list_of(&o.user_mappings));
     }
     if let Some((phnum, phdr, gate, entry)) = o.direct_auxv {
         w.set_direct_auxv_dump_info(DirectAuxvDumpInfo { program_header_count: phnum, program_header_address: phdr, linux_gate_address: gate, entry_address: entry });
